@@ -124,11 +124,11 @@ func checkElem(c ElemCase) error {
 	if d := cmp.ObjectDiff(back.(osm.Object), it); d != "" {
 		return harness.Failf("C04/element-roundtrip", "%s: %s\n%s", it.Kind(), d, data)
 	}
-	if it.Bounds == nil {
-		// the text uses the OSM element name: the scanner recognises it
-		if d := scanDiff(data, []osmdoc.Item{it}); d != "" {
-			return harness.Failf("C04/element-names", "%s: %s\n%s", it.Kind(), d, data)
-		}
+	// the scanner recognises the element from the text (a Bounds value marshalled
+	// on its own is named after its Go type, <Bounds>; the scanner matches
+	// element names without regard to case)
+	if d := scanDiff(data, []osmdoc.Item{it}); d != "" {
+		return harness.Failf("C04/element-names", "%s: %s\n%s", it.Kind(), d, data)
 	}
 	return nil
 }
